@@ -103,7 +103,7 @@ check("C10", "exploration",
       "bounded exhaustive input enumeration + deterministic work-growth ladders (coverage block counters)", "DESIGN.md#c10")
 
 check("C11", "exploration",
-      "16 hosts (HTML script with five type attributes, style, style=, on*= with and without a javascript: prefix, data: URIs percent- and base64-encoded; SVG style element as text and CDATA, style=; CSS url(data:…)) x 30 payloads (incl. quotes of both kinds, <, >, &, ]]>, white space, newlines) x 18 registry modes: a recording stub whose output is a marker of (type, input), 13 stubs with outputs that need re-escaping, a failing stub, a failing stub with a parse position, nothing registered, the real minifiers. The commutation law is checked by decoding: the host output is parsed by x/net/html, the own XML reader or the own RFC 2397 decoder, the embedded value is extracted and must equal what the embedded minifier wrote for exactly the documented pre-processing of the payload, called once with the documented media type and parameters; unregistered → bytes unchanged; failing → outer error with a position inside the host.",
+      "19 hosts (HTML script with five type attributes, style, style=, on*= with and without a javascript: prefix, data: URIs percent- and base64-encoded; SVG style element as text and CDATA, style=; CSS url(data:…)) x 30 payloads (incl. quotes of both kinds, <, >, &, ]]>, white space, newlines) x 18 registry modes: a recording stub whose output is a marker of (type, input), 13 stubs with outputs that need re-escaping, a failing stub, a failing stub with a parse position, nothing registered, the real minifiers. The commutation law is checked by decoding: the host output is parsed by x/net/html, the own XML reader or the own RFC 2397 decoder, the embedded value is extracted and must equal what the embedded minifier wrote for exactly the documented pre-processing of the payload, called once with the documented media type and parameters; unregistered → bytes unchanged; failing → outer error with a position inside the host.",
       "The documented pre-processing (trimming, javascript: removal, entity decoding) and the default media types per host are an own table; hosts not in the list are not covered.",
       "exhaustive product of hosts x payloads x registries with recording stubs, checked by independent decoding", "DESIGN.md#c11")
 
